@@ -87,6 +87,15 @@ impl PreparedRequest<body::Empty> {
     }
 }
 
+#[cfg(feature = "verif-hooks")]
+impl<B> PreparedRequest<B> {
+    /// Effective settings of this request (verification hook).
+    #[doc(hidden)]
+    pub fn verif_settings(&self) -> crate::verif_hooks::SettingsSnapshot {
+        crate::verif_hooks::snapshot(&self.base_settings)
+    }
+}
+
 impl<B> PreparedRequest<B> {
     #[cfg(not(feature = "flate2"))]
     fn set_compression(&mut self) -> Result {
